@@ -28,6 +28,28 @@ inductive Chunk where
   | group (k : GroupKind) (cs : List Chunk) (p : Params)
   deriving Repr, Inhabited
 
+/-- input facts and repair switches of `impl From<Piece> for Chunk` -/
+structure Build where
+  /-- `write!(String, "{}", Utc::now().format(fmt))` succeeds: the trial rendering at construction
+  (commit ea62e36). An input: chrono's verdict, reported by the harness. -/
+  renderOk : List Char → Bool
+  /-- historical (commit 73e36b9, superseded): `chrono::format::StrftimeItems::new(fmt)` yields no
+  `Item::Error` -/
+  itemsOk : List Char → Bool := fun _ => true
+  /-- repair of F4: a date format chrono rejects is an error chunk at construction.
+  `false` = the code before the repair. -/
+  dateCheck : Bool := true
+  /-- `true` = the intermediate repair 73e36b9 (items scan, lets the parse-only `%#z` through);
+  `false` = the current code (trial rendering) -/
+  itemsScan : Bool := false
+  /-- repair of F6b (commit 7be4123): an MDC key / default is all text pieces of its argument
+  joined (`plain_text`). `false` = the code before the repair (first piece only). -/
+  mdcWhole : Bool := true
+
+/-- the verdict the construction-time check consults -/
+def Build.dateOk (B : Build) (fmt : List Char) : Bool :=
+  if B.itemsScan then B.itemsOk fmt else B.renderOk fmt
+
 def eAtMostTwo : List Char := cs!"expected at most two arguments"
 def eExactlyOne : List Char := cs!"expected exactly one argument"
 def eUnexpectedArgs : List Char := cs!"unexpected arguments"
@@ -37,6 +59,7 @@ def eMissingMdcKey : List Char := cs!"missing MDC key"
 def eInvalidMdcDefault : List Char := cs!"invalid MDC default"
 def eInvalidTimezoneNamed (z : List Char) : List Char := cs!"invalid timezone `" ++ z ++ ['`']
 def eUnknownFormatter (n : List Char) : List Char := cs!"unknown formatter `" ++ n ++ ['`']
+def eInvalidDateFormat (f : List Char) : List Char := cs!"invalid date format `" ++ f ++ ['`']
 def errOpen : List Char := cs!"{ERROR: "
 
 /-- the date format string: text pieces concatenated; other pieces leave an error marker *inside
@@ -65,15 +88,41 @@ def mdcTextOf (invalid : List Char) (arg : List Piece) : Except (List Char) (Lis
   | .arg _ _ _ :: _ => .error invalid
   | [] => .error invalid
 
+/-- the loop of `plain_text`: text pieces joined; the first error or nested formatter decides -/
+def plainTextLoop (invalid : List Char) : List Piece → Except (List Char) (List Char)
+  | [] => .ok []
+  | .text t :: r =>
+    match plainTextLoop invalid r with
+    | .ok rest => .ok (t ++ rest)
+    | .error e => .error e
+  | .error e :: _ => .error e
+  | .arg _ _ _ :: _ => .error invalid
+
+/-- `plain_text(arg, invalid)` (repair of F6b): an empty argument is invalid -/
+def plainTextOf (invalid : List Char) (arg : List Piece) : Except (List Char) (List Char) :=
+  match arg with
+  | [] => .error invalid
+  | _ :: _ => plainTextLoop invalid arg
+
+/-- the MDC key / default of an argument, before or after the repair -/
+def mdcArgText (B : Build) (invalid : List Char) (arg : List Piece) : Except (List Char) (List Char) :=
+  if B.mdcWhole then plainTextOf invalid arg else mdcTextOf invalid arg
+
 def noArgs (args : List (List Piece)) (p : Params) (k : Leaf) : Chunk :=
   if args.isEmpty then .leaf k p else .error eUnexpectedArgs
 
-def dateChunk (args : List (List Piece)) (p : Params) : Chunk :=
+/-- the format string of a date formatter's arguments -/
+def dateFormatArg (args : List (List Piece)) : List Char :=
+  match args with
+  | a :: _ => dateFormatOf a
+  | [] => cs!"%+"
+
+def dateChunk (B : Build) (args : List (List Piece)) (p : Params) : Chunk :=
   if args.length > 2 then .error eAtMostTwo
   else
-    let format := match args with
-      | a :: _ => dateFormatOf a
-      | [] => cs!"%+"
+    let format := dateFormatArg args
+    if B.dateCheck && !B.dateOk format then .error (eInvalidDateFormat format)
+    else
     match args with
     | _ :: z :: _ =>
       match timezoneOf z with
@@ -81,36 +130,41 @@ def dateChunk (args : List (List Piece)) (p : Params) : Chunk :=
       | .error e => .error e
     | _ => .leaf (.time format false) p
 
-def mdcChunk (args : List (List Piece)) (p : Params) : Chunk :=
+def mdcChunk (B : Build) (args : List (List Piece)) (p : Params) : Chunk :=
   if args.length > 2 then .error eAtMostTwo
   else
     match args with
     | [] => .error eMissingMdcKey
     | k :: rest =>
-      match mdcTextOf eInvalidMdcKey k with
+      match mdcArgText B eInvalidMdcKey k with
       | .error e => .error e
       | .ok key =>
         match rest with
         | d :: _ =>
-          match mdcTextOf eInvalidMdcDefault d with
+          match mdcArgText B eInvalidMdcDefault d with
           | .error e => .error e
           | .ok dflt => .leaf (.mdc key dflt) p
         | [] => .leaf (.mdc key []) p
 
-/-- the formatters without arguments: name ↦ chunk -/
-def leafOfName (n : List Char) : Option Leaf :=
-  if n = cs!"l" || n = cs!"level" then some .level
-  else if n = cs!"m" || n = cs!"message" then some .message
-  else if n = cs!"M" || n = cs!"module" then some .module
-  else if n = cs!"n" then some .newline
-  else if n = cs!"f" || n = cs!"file" then some .file
-  else if n = cs!"L" || n = cs!"line" then some .line
-  else if n = cs!"T" || n = cs!"thread" then some .thread
-  else if n = cs!"I" || n = cs!"thread_id" then some .threadId
-  else if n = cs!"P" || n = cs!"pid" then some .processId
-  else if n = cs!"i" || n = cs!"tid" then some .systemThreadId
-  else if n = cs!"t" || n = cs!"target" then some .target
-  else none
+/-- the formatters without arguments: name ↦ chunk (the `no_args` arms of the `match`) -/
+def leafTable : List (List Char × Leaf) := [
+  (cs!"l", .level), (cs!"level", .level),
+  (cs!"m", .message), (cs!"message", .message),
+  (cs!"M", .module), (cs!"module", .module),
+  (cs!"n", .newline),
+  (cs!"f", .file), (cs!"file", .file),
+  (cs!"L", .line), (cs!"line", .line),
+  (cs!"T", .thread), (cs!"thread", .thread),
+  (cs!"I", .threadId), (cs!"thread_id", .threadId),
+  (cs!"P", .processId), (cs!"pid", .processId),
+  (cs!"i", .systemThreadId), (cs!"tid", .systemThreadId),
+  (cs!"t", .target), (cs!"target", .target)]
+
+def leafLookup (n : List Char) : List (List Char × Leaf) → Option Leaf
+  | [] => none
+  | (m, k) :: rest => if n = m then some k else leafLookup n rest
+
+def leafOfName (n : List Char) : Option Leaf := leafLookup n leafTable
 
 /-- the formatters with exactly one pattern argument -/
 def groupOfName (n : List Char) : Option GroupKind :=
@@ -122,25 +176,40 @@ def groupOfName (n : List Char) : Option GroupKind :=
 
 mutual
 /-- `impl From<Piece> for Chunk` -/
-def compile : Piece → Chunk
+def compile (B : Build) : Piece → Chunk
   | .text s => .text s
   | .error e => .error e
   | .arg n args p =>
-    if n = cs!"d" || n = cs!"date" then dateChunk args p
+    if n = cs!"d" || n = cs!"date" then dateChunk B args p
     else match groupOfName n with
       | some g =>
         match args with
-        | [a] => .group g (compileL a) p
+        | [a] => .group g (compileL B a) p
         | _ => .error eExactlyOne
       | none =>
         match leafOfName n with
         | some k => noArgs args p k
         | none =>
-          if n = cs!"X" || n = cs!"mdc" then mdcChunk args p
+          if n = cs!"X" || n = cs!"mdc" then mdcChunk B args p
           else .error (eUnknownFormatter n)
-def compileL : List Piece → List Chunk
+def compileL (B : Build) : List Piece → List Chunk
   | [] => []
-  | p :: ps => compile p :: compileL ps
+  | p :: ps => compile B p :: compileL B ps
+end
+
+mutual
+/-- the date formats `compile` asks chrono about (any depth) — the facts the driver needs -/
+def neededFormats : Piece → List (List Char)
+  | .text _ => []
+  | .error _ => []
+  | .arg n args _ =>
+    (if n = cs!"d" || n = cs!"date" then [dateFormatArg args] else []) ++ neededFormatsLL args
+def neededFormatsL : List Piece → List (List Char)
+  | [] => []
+  | p :: ps => neededFormats p ++ neededFormatsL ps
+def neededFormatsLL : List (List Piece) → List (List Char)
+  | [] => []
+  | a :: as => neededFormatsL a ++ neededFormatsLL as
 end
 
 end Log4rs.Pattern.Parse
